@@ -596,6 +596,11 @@ def class_pairs():
                                    ("element of a literal", "int[]", "string s = {1, 2}[0];", "int s = {1, 2}[0];")]:
         good = (al % ("int[]", good_s)) if good_s is not None else (al % ("int[]", ""))
         P.append(("an array literal's type taken for any type", pos, al % (rt, bad_s), good))
+    # the base constructor an implicit super() reaches must be accessible, like one named by super(...) or new
+    isup = ("class Vault { public int n; %s constructor() -> Vault { this.n = 7; return this; } public constructor(int k) -> Vault { this.n = k; return this; } }\n"
+            "class Sub extends Vault { public constructor() -> Sub { %s return this; } }\nfunction main() -> void { Sub s = new Sub(); echo(s.n); }")
+    P.append(("private base constructor reached from a subclass", "implicit super()", isup % ("private", ""), isup % ("protected", "")))
+    P.append(("private base constructor reached from a subclass", "explicit super()", isup % ("private", "super();"), isup % ("public", "super();")))
     # super.m() runs the base version: a body-less (abstract) method has none
     sm = ("abstract class S { public constructor() -> S = default; public virtual function m() -> int%s }\n"
           "class D extends S { public constructor() -> D = default; public override function m() -> int { return %s + 10; } }\n"
